@@ -25,6 +25,13 @@ def c17(res, tier, seed, replay):
     design_check(res, "Cluster", "Cluster.cfg")
     expect_design_violation(res, "Cluster", "Cluster.neg.cfg", "NotFoundOnlyIfComplete",
                             "coordinator says 'not found' although a shard did not answer")
+    # the retry loop under the fan-out (cluster.internalRoute): nil only for a reply that an execution produced
+    design_check(res, "Rpc", "Rpc.r1.cfg")
+    design_check(res, "Rpc", "Rpc.r3.cfg")
+    expect_design_violation(res, "Rpc", "Rpc.neg.cfg", "NilMeansExecuted",
+                            "a dead cached connection counted as an attempt: the last attempt returns nil without sending")
+    expect_design_violation(res, "Rpc", "Rpc.dup.cfg", "AtMostOnce",
+                            "documented design observation: a retry after an rpc timeout can execute the request twice (slow servers are outside C17's fault list)")
     runs = []
     n = 1 if tier == "quick" else 5
     for s in range(n):
